@@ -1,5 +1,6 @@
 //! vh — verification harness: runs the real crustabri code on case files, one canonical line per
 //! observable event. Usage: `vh <casefile>` (or stdin). Case lines: `<family> <id> k=v k=v ...`.
+mod dynf;
 mod enc;
 mod equiv;
 mod fw;
@@ -41,6 +42,7 @@ fn main() {
             "enc" => enc::run(id, &p, &mut out),
             "multi" => multi::run(id, &p, &mut out),
             "equiv" => equiv::run(id, &p, &mut out),
+            "dyn" => dynf::run(id, &p, &mut out),
             "sat" => sat::run(id, &p, &mut out),
             "read" => io::run_read(id, &p, &mut out),
             "write" => io::run_write(id, &p, &mut out),
